@@ -36,8 +36,8 @@ pub mod address {
     use std::net::SocketAddr;
     use std::net::SocketAddrV4;
     use std::net::SocketAddrV6;
-    use std::string::FromUtf8Error;
 
+    use anyhow::bail;
     use tokio_util::bytes::Buf;
     use tokio_util::bytes::BufMut;
     use tokio_util::bytes::Bytes;
@@ -74,9 +74,21 @@ pub mod address {
         Ok(())
     }
 
-    pub fn read_address_port(buf: &mut Bytes) -> Result<Address, FromUtf8Error> {
+    pub fn read_address_port(buf: &mut Bytes) -> anyhow::Result<Address> {
+        if buf.remaining() < 3 {
+            bail!("insufficient bytes for address, found {} bytes", buf.remaining());
+        }
         let port = buf.get_u16();
-        let addr_type = AddressType::new(buf.get_u8());
+        let addr_type = AddressType::new(buf.get_u8())?;
+        let required = match addr_type {
+            AddressType::Ipv4 => 4,
+            AddressType::Domain if buf.has_remaining() => 1 + buf[0] as usize,
+            AddressType::Domain => 1,
+            AddressType::Ipv6 => 16,
+        };
+        if buf.remaining() < required {
+            bail!("insufficient bytes for address, found {} bytes", buf.remaining());
+        }
         match addr_type {
             AddressType::Ipv4 => Ok(Address::from(SocketAddr::V4(SocketAddrV4::new(Ipv4Addr::from(buf.get_u32()), port)))),
             AddressType::Domain => {
